@@ -131,6 +131,7 @@ def _worker_contract(nchunks, whole):
         setup_spec = link_worker
         bounded = "%d chunk(s) of 1..48 bytes arriving at iteration boundaries; decoder returns 0..2 messages" % nchunks
         max_paths = 3000
+        samples = 0          # the decoder is an assumed summary here: nothing to run natively without its outcomes
 
         def requires(self):
             if not whole:
@@ -162,6 +163,7 @@ class _WorkerSplit:
     setup_spec = link_worker
     bounded = "one message of up to 48 bytes split at any point into two chunks"
     max_paths = 3000
+    samples = 0
 
     def requires(self):
         cs = self.transport._recv_data_available.chunks
